@@ -305,6 +305,31 @@ class Interp:
         return r
 
     # -- types --------------------------------------------------------------------------
+    def _owned_store(self, recv) -> bool:
+        """``recv`` is an attribute of an instance of a repository class whose constructor binds it to an empty dictionary."""
+        if not (isinstance(recv, tuple) and recv and recv[0] == "attr"):
+            return False
+        cls = self.type_of(recv[1])
+        if cls is None:
+            return False
+        init = cls.find_method("__init__")
+        if init is None or not init.params():
+            return False
+        me = init.params()[0]
+        for n in ast.walk(init.node):
+            tgt = val = None
+            if isinstance(n, ast.Assign) and len(n.targets) == 1:
+                tgt, val = n.targets[0], n.value
+            elif isinstance(n, ast.AnnAssign) and n.value is not None:
+                tgt, val = n.target, n.value
+            if isinstance(tgt, ast.Attribute) and tgt.attr == recv[2] and isinstance(tgt.value, ast.Name) and tgt.value.id == me:
+                if isinstance(val, ast.Dict) and not val.keys:
+                    return True
+                if isinstance(val, ast.Call) and not val.keywords and getattr(val.func, "id", getattr(val.func, "attr", "")) in ("dict", "defaultdict") \
+                        and (not val.args or getattr(val.func, "id", getattr(val.func, "attr", "")) == "defaultdict"):
+                    return True
+        return False
+
     def attr_class(self, cls: ClassInfo, name: str) -> ClassInfo | None:
         """Repository class of instance attribute ``name`` of ``cls`` (annotations, then __init__)."""
         for c in cls.mro():
@@ -1703,6 +1728,11 @@ class Interp:
                     return ("call", "re." + name, a2, tuple(sorted(kw2.items())))
             if name == "update" and isinstance(o, HDict) and len(args) == 1 and not kwargs and self._dict_update(recv, args[0], tree, line):
                 return NONE
+            if name == "setdefault" and len(args) == 2 and not kwargs and self._owned_store(recv) and isinstance(self.obj(args[1]), (HList, HDict)) \
+                    and not getattr(self.obj(args[1]), "segs", None) and not getattr(self.obj(args[1]), "entries", None):
+                # ``store.setdefault(k, [])`` on a dictionary an object creates empty for itself: the entry for k, made on
+                # first use - what ``store[k]`` is when the store is a defaultdict(list)
+                return ("item", recv, args[0])
             if name in self.MUTATORS:
                 ob_ = self.obj(recv)
                 if ob_ is not None:
@@ -3265,6 +3295,11 @@ class Interp:
         self.stack.append(act)
         try:
             tree: list = []
+            # an optional parameter the function did not have when the properties were stated is evaluated at its default:
+            # that is what every caller of the API as stated gets (the properties quantify over the parameters of that API)
+            for name, dflt in _added_optional_params(fi):
+                if not (args and name in args):
+                    st.env[name] = self.ev(st, dflt, tree)
             out = self.exec_block(fi.node.body, st, tree)
         finally:
             self.stack.pop()
@@ -3275,6 +3310,34 @@ class Interp:
                 rv = mk_cond(out.retc if out.retc is not None else ("returned", act.id), rv, NONE)
         final = self._merge_exit(out.live, out.ret)
         return tree, rv, final
+
+
+_API_SIGNATURES = None
+
+
+def _added_optional_params(fi):
+    """(name, default expression) of the parameters of ``fi`` that have a default and are not part of the function's signature
+    as recorded in gsa/api_signatures.json (by name, or by position among the positional ones)."""
+    global _API_SIGNATURES
+    if _API_SIGNATURES is None:
+        import json
+        import os
+        with open(os.path.join(os.path.dirname(os.path.abspath(__file__)), "api_signatures.json"), encoding="utf-8") as fh:
+            _API_SIGNATURES = json.load(fh)
+    sig = _API_SIGNATURES.get(fi.qualname)
+    if sig is None:
+        return []
+    a = fi.node.args
+    pos = a.posonlyargs + a.args
+    out = []
+    for i, p_ in enumerate(pos):
+        j = i - (len(pos) - len(a.defaults))
+        if j >= 0 and p_.arg not in sig["pos"] and p_.arg not in sig["kwonly"] and i >= len(sig["pos"]):
+            out.append((p_.arg, a.defaults[j]))
+    for p_, d in zip(a.kwonlyargs, a.kw_defaults):
+        if d is not None and p_.arg not in sig["kwonly"] and p_.arg not in sig["pos"]:
+            out.append((p_.arg, d))
+    return out
 
 
 def _iter_nodes(tree):
